@@ -10,7 +10,7 @@ import ast
 import string
 
 from ..cfg import cfg_of
-from ..flow import flow_of, path_of
+from ..flow import deref, flow_of, path_of
 from ..loader import FUNC, AnalysisError, const_fold, dotted, last_name, loc, short, walk_local
 from ..util import FORMATTER, PATH, REPEX, SETUP, is_self_attr, kwarg, last_key
 from ..variants import B, K
@@ -210,10 +210,11 @@ def r142(ctx):
     params = [a.arg for a in ue.args.args][1:]
     for c in [c for c in walk_local(le) if isinstance(c, ast.Call) and last_name(c) == "update_energies"]:
         got = []
+        lefl = flow_of(le)
         for i, a in enumerate(c.args):
-            got.append((params[i] if i < len(params) else "?", last_key(a)))
+            got.append((params[i] if i < len(params) else "?", last_key(deref(lefl, a, lefl.cfg.node_of(c))[0])))
         for k in c.keywords:
-            got.append((k.arg, last_key(k.value)))
+            got.append((k.arg, last_key(deref(lefl, k.value, lefl.cfg.node_of(c))[0])))
         if all(p == k for p, k in got) and len(got) == 2:
             ctx.ok(rid, c, f"update_energies receives {got} - each parameter gets its own column")
         else:
